@@ -1,18 +1,22 @@
 (* Event-level abstraction of the replication of the PARENT LINK of ONE synchronized child entity of
-   bevy_sync.  Unlike component values (Values.v) there is NO "applied from the network, swallow the
-   next detection" token for parents: a peer that applies a link from the network re-announces it.
+   bevy_sync, AFTER THE REPAIR of the parent ping-pong (defect S19).
+
+   Every peer keeps, per child, a VALUE TOKEN [parent_from_network], consumed on use: a receiver that
+   applies a parent link from the network (the parent differs -> set_parent) records that parent in
+   the token; the announcing system, for every Changed<Parent> child, REMOVES the token and skips the
+   child when the token is the child's current parent.  (Before the repair a link applied from the
+   network was re-announced by the receiving peer.)
 
    Rust: /repo/src/server/track.rs  entity_parented_on_server, client/track.rs entity_parented_on_client,
          server/receiver.rs + client/receiver.rs (Message::EntityParented), full_sync/mod.rs build_full_sync
          (the snapshot contains one EntityParented per parented synchronized entity).
-   Frame-level model: theories/Sync/Model.v  entity_parented_server, entity_parented_client,
-         CSetParentSrv, CSetParentCli, add_child, set_parent_twice, parent_differs, snapshot_parent_msgs.
 
-   What is kept of a peer: the child's current parent (as a uuid) and Bevy's Changed<Parent> flag as
-   seen by the peer's announcing system.  The flag is raised by a local set_parent AND by a link
-   applied from the network (add_child stamps the Parent component; the receivers call it only when
-   the parent differs).  The host relays EVERY EntityParented it handles to all the other clients,
-   whether or not it changed anything (server/receiver.rs: repeat_except_for_client is outside the if).
+   What is kept of a peer: the child's current parent (as a uuid), Bevy's Changed<Parent> flag as seen
+   by the peer's announcing system, and the token for the child.  The flag is raised by a local
+   set_parent (also when the parent is the same) AND by a link applied from the network (add_child
+   stamps the Parent component; the receivers call it only when the parent differs).  The host relays
+   EVERY EntityParented it handles to all the other clients, whether or not it changed anything
+   (server/receiver.rs: repeat_except_for_client is outside the if).
 
    Everything here is executable (total functions, decidable validity): the model is meant to be
    run against real traces as well as reasoned about (ParentsProofs.v). *)
@@ -25,7 +29,8 @@ Definition host : peer := 0%N.
 
 Record ppeer := PPeer {
   par : option puid;     (* the child's parent on this peer, None = no Parent component *)
-  changed : bool         (* Changed<Parent> not yet seen by entity_parented_on_{server,client} *)
+  changed : bool;        (* Changed<Parent> not yet seen by entity_parented_on_{server,client} *)
+  tok : option puid      (* parent_from_network: the parent applied from the network, not yet consumed *)
 }.
 
 Record pstate := PState {
@@ -45,10 +50,11 @@ Proof. solve_decision. Defined.
 
 (* ---------- getters (total, with defaults) ------------------------------------------------ *)
 
-Definition ppeer0 : ppeer := PPeer None false.
+Definition ppeer0 : ppeer := PPeer None false None.
 Definition pget (s : pstate) (p : peer) : ppeer := default ppeer0 (pp s !! p).
 Definition ppar (s : pstate) (p : peer) : option puid := par (pget s p).
 Definition pchg (s : pstate) (p : peer) : bool := changed (pget s p).
+Definition ptok (s : pstate) (p : peer) : option puid := tok (pget s p).
 Definition plget (L : gmap (peer * peer) (list puid)) (a b : peer) : list puid := default [] (L !! (a, b)).
 Definition plink (s : pstate) (a b : peer) : list puid := plget (plinks s) a b.
 Definition ppexists (s : pstate) (p : peer) : bool := bool_decide (is_Some (pp s !! p)).
@@ -67,8 +73,28 @@ Definition pothers (src : peer) (l : list peer) : list peer := filter (fun c => 
 (* whom p announces to: the host broadcasts, a client sends to the host *)
 Definition pdsts (s : pstate) (p : peer) : list peer := if (p =? host)%N then pconn s else [host].
 
-(* what is announced / put in the snapshot: the current parent, if any *)
+(* what is put in the snapshot: the current parent, if any *)
 Definition plink_msg (o : option puid) : list puid := match o with Some u => [u] | None => [] end.
+
+(* ---------- the three local transitions of a peer record ------------------------------------- *)
+
+(* entity_parented_on_{server,client}, the Changed<Parent> filter matched (flag raised):
+   what is sent -- the CURRENT parent unless it is the one in the token -- *)
+Definition pann_msg (x : ppeer) : list puid :=
+  match par x with
+  | Some u => if bool_decide (tok x = Some u) then [] else [u]
+  | None => []
+  end.
+(* -- and the record afterwards: flag seen, token consumed (whatever it was) *)
+Definition pann_peer (x : ppeer) : ppeer := PPeer (par x) false None.
+
+(* the receiver of EntityParented u: only if the parent differs: add_child + token := u *)
+Definition pdel_peer (u : puid) (x : ppeer) : ppeer :=
+  if bool_decide (par x = Some u) then x else PPeer (Some u) true (Some u).
+
+(* set_parent / add_child by the application: the Parent component is (re)stamped even if the parent
+   is the same; the token is not touched *)
+Definition pset_rec (u : puid) (x : ppeer) : ppeer := PPeer (Some u) true (tok x).
 
 (* ---------- one event ------------------------------------------------------------------------- *)
 
@@ -78,19 +104,18 @@ Definition pset_peer (s : pstate) (p : peer) (x : ppeer) : pstate :=
 Definition pstep (s : pstate) (e : pevent) : option pstate :=
   match e with
   | PSet p u =>
-      (* set_parent / add_child: the Parent component is (re)stamped even if the parent is the same *)
       match pp s !! p with
       | None => None
-      | Some _ => Some (pset_peer s p (PPeer (Some u) true))
+      | Some x => Some (pset_peer s p (pset_rec u x))
       end
   | PAnnounce p =>
-      (* Query<(&Parent, &SyncEntity), Changed<Parent>>: the CURRENT parent is announced *)
+      (* Query<(&Parent, &SyncEntity), Changed<Parent>> + the token check *)
       match pp s !! p with
       | None => None
       | Some x =>
           if changed x then
-            Some (PState (<[p := PPeer (par x) false]> (pp s)) (pconn s)
-                         (psend_to (plinks s) p (pdsts s p) (plink_msg (par x))))
+            Some (PState (<[p := pann_peer x]> (pp s)) (pconn s)
+                         (psend_to (plinks s) p (pdsts s p) (pann_msg x)))
           else Some s
       end
   | PDeliver src dst =>
@@ -99,9 +124,7 @@ Definition pstep (s : pstate) (e : pevent) : option pstate :=
           let L := <[(src, dst) := rest]> (plinks s) in
           (* the host relays unconditionally *)
           let L := if (dst =? host)%N then psend_to L host (pothers src (pconn s)) [u] else L in
-          Some (PState (if bool_decide (par x = Some u) then pp s              (* same parent: nothing applied *)
-                        else <[dst := PPeer (Some u) true]> (pp s))            (* applied: Changed<Parent> *)
-                       (pconn s) L)
+          Some (PState (<[dst := pdel_peer u x]> (pp s)) (pconn s) L)
       | _, _ => None
       end
   | PJoin c =>
@@ -114,6 +137,13 @@ Fixpoint prun (s : pstate) (tr : list pevent) : option pstate :=
   match tr with
   | [] => Some s
   | e :: tr => match pstep s e with Some s' => prun s' tr | None => None end
+  end.
+
+(* lenient replay of a schedule: events that are not enabled (nothing to deliver) are skipped *)
+Fixpoint prun_skip (s : pstate) (tr : list pevent) : pstate :=
+  match tr with
+  | [] => s
+  | e :: tr => match pstep s e with Some s' => prun_skip s' tr | None => prun_skip s tr end
   end.
 
 (* host + clients 1..n, all connected, the child has no parent anywhere *)
@@ -138,6 +168,16 @@ Definition pwf (s : pstate) : Prop :=
   (forall p, is_Some (pp s !! p) <-> ppeers s p) /\
   (forall a b, plink s a b <> [] -> (a = host /\ b ∈ pconn s) \/ (b = host /\ a ∈ pconn s)).
 
+(* the tracker invariant (also an invariant of every run from [pinit n]): a token is only present
+   while the flag is raised; a raised flag means there is a Parent component *)
+Definition psync_inv (s : pstate) : Prop :=
+  forall p, (ptok s p <> None -> pchg s p = true) /\ (pchg s p = true -> ppar s p <> None).
+
+(* [parmed s p]: p has a LOCAL change that its announcing system will put on the network: the flag
+   is raised and the parent is not the one in the token *)
+Definition parmed (s : pstate) (p : peer) : bool :=
+  pchg s p && negb (bool_decide (ppar s p = ptok s p)).
+
 (* ---------- observations on traces ------------------------------------------------------------ *)
 
 Definition psets (tr : list pevent) : list (peer * puid) :=
@@ -149,6 +189,10 @@ Definition pjoiners (tr : list pevent) : list peer :=
 Definition target_after (t : option puid) (tr : list pevent) : option puid :=
   foldl (fun t e => match e with PSet _ u => Some u | _ => t end) t tr.
 Definition last_set (tr : list pevent) : option puid := target_after None tr.
+
+(* the peer that issued the last PSet of the trace ([w] if there is none) *)
+Definition writer_after (w : option peer) (tr : list pevent) : option peer :=
+  foldl (fun w e => match e with PSet p _ => Some p | _ => w end) w tr.
 
 (* announce / deliver only *)
 Definition drain_event (e : pevent) : Prop :=
@@ -170,7 +214,7 @@ Fixpoint pstates (s : pstate) (tr : list pevent) : list pstate :=
 (* number of messages an event hands to the network *)
 Definition psent_by (s : pstate) (e : pevent) : nat :=
   match e with
-  | PAnnounce p => if pchg s p then length (plink_msg (ppar s p)) * length (pdsts s p) else 0
+  | PAnnounce p => if pchg s p then length (pann_msg (pget s p)) * length (pdsts s p) else 0
   | PDeliver src dst =>
       match plink s src dst with
       | _ :: _ => if (dst =? host)%N then length (pothers src (pconn s)) else 0
@@ -179,10 +223,19 @@ Definition psent_by (s : pstate) (e : pevent) : nat :=
   | PJoin _ => length (plink_msg (ppar s host))
   | PSet _ _ => 0
   end.
+(* ... of which: messages ORIGINATED by an announcing system (not relays, not snapshots) *)
+Definition pannounced_by (s : pstate) (e : pevent) : nat :=
+  match e with PAnnounce _ => psent_by s e | _ => 0 end.
+
 Fixpoint ptotal_sent (s : pstate) (tr : list pevent) : nat :=
   match tr with
   | [] => 0
   | e :: tr => match pstep s e with Some s' => psent_by s e + ptotal_sent s' tr | None => 0 end
+  end.
+Fixpoint ptotal_announced (s : pstate) (tr : list pevent) : nat :=
+  match tr with
+  | [] => 0
+  | e :: tr => match pstep s e with Some s' => pannounced_by s e + ptotal_announced s' tr | None => 0 end
   end.
 Fixpoint peffective_count (s : pstate) (tr : list pevent) : nat :=
   match tr with
@@ -193,54 +246,12 @@ Fixpoint peffective_count (s : pstate) (tr : list pevent) : nat :=
                end
   end.
 
-(* ---------- the class of histories excluded from the convergence theorem -----------------------
-   [known_S19]: the child is re-parented to u while the exchange started by an earlier operation
-   (or by a join snapshot) is still in flight -- the state is not quiescent -- and the parent given
-   by the previous PSet is a different one.  For histories without joins this is exactly: two
-   consecutive PSet with different parents and no quiescent state in between (whoever issues them:
-   even the SAME peer re-parenting twice, defect S19, see [C05_pingpong_refuted]).
-   Re-parenting to the SAME parent again, by any peer, at any time, is not in the class.
-   [t] = the parent given by the last PSet. *)
-Fixpoint s19_from (t : option puid) (s : pstate) (tr : list pevent) : bool :=
-  match tr with
-  | [] => false
-  | e :: tr =>
-      match pstep s e with
-      | None => false
-      | Some s' =>
-          match e with
-          | PSet _ u => (negb (pquiescentb s) && negb (bool_decide (t = Some u))) || s19_from (Some u) s' tr
-          | _ => s19_from t s' tr
-          end
-      end
-  end.
-Definition known_S19 (s : pstate) (tr : list pevent) : bool := s19_from (ppar s host) s tr.
-
-(* the literal reading, for histories without joins: [g] = the parent given by a PSet since the
-   state was last quiescent; two PSet with different parents and no quiescent state in between.
-   [known_S19_literal_nojoin] (ParentsProofs.v): the two classes coincide on join-free histories. *)
-Fixpoint s19_lit_from (g : option puid) (s : pstate) (tr : list pevent) : bool :=
-  match tr with
-  | [] => false
-  | e :: tr =>
-      let g := if pquiescentb s then None else g in
-      match pstep s e with
-      | None => false
-      | Some s' =>
-          match e with
-          | PSet _ u => match g with Some u' => negb (bool_decide (u' = u)) | None => false end
-                        || s19_lit_from (Some u) s' tr
-          | _ => s19_lit_from g s' tr
-          end
-      end
-  end.
-Definition known_S19_literal (s : pstate) (tr : list pevent) : bool := s19_lit_from None s tr.
-
-(* [joins_safe]: at every PJoin the host has no parent for the child or already has the parent
-   given by the last PSet (true in particular for every join at a quiescent state of a history
-   outside [known_S19]).  Otherwise the snapshot carries the OLD parent, which the joiner applies and
-   echoes back to the host: see [join_any_moment_refuted]. *)
-Fixpoint js_from (t : option puid) (s : pstate) (tr : list pevent) : bool :=
+(* ---------- the premises of the convergence theorem (C05) -------------------------------------
+   [writers_drain_separated]: whenever a PSet is issued by a peer p and the PREVIOUS PSet of the
+   history was issued by a DIFFERENT peer, the state at that moment is quiescent.  Operations of one
+   and the same peer may follow each other at any pace, with any parents (A -> B -> A included);
+   joins may happen at any moment.  [w] = the peer that issued the previous PSet. *)
+Fixpoint wds_from (w : option peer) (s : pstate) (tr : list pevent) : bool :=
   match tr with
   | [] => true
   | e :: tr =>
@@ -248,80 +259,68 @@ Fixpoint js_from (t : option puid) (s : pstate) (tr : list pevent) : bool :=
       | None => true
       | Some s' =>
           match e with
-          | PSet _ u => js_from (Some u) s' tr
-          | PJoin _ => bool_decide (ppar s host = None \/ ppar s host = t) && js_from t s' tr
-          | _ => js_from t s' tr
+          | PSet p _ =>
+              match w with Some q => bool_decide (q = p) || pquiescentb s | None => true end
+              && wds_from (Some p) s' tr
+          | _ => wds_from w s' tr
           end
       end
   end.
-Definition joins_safe (s : pstate) (tr : list pevent) : bool := js_from (ppar s host) s tr.
-
-(* the stricter, state-free reading: every join happens at a quiescent state *)
-Fixpoint joins_quiescent (s : pstate) (tr : list pevent) : bool :=
-  match tr with
-  | [] => true
-  | e :: tr =>
-      match pstep s e with
-      | None => true
-      | Some s' =>
-          match e with
-          | PJoin _ => pquiescentb s && joins_quiescent s' tr
-          | _ => joins_quiescent s' tr
-          end
-      end
-  end.
+Definition writers_drain_separated (s : pstate) (tr : list pevent) : bool := wds_from None s tr.
 
 (* ---------- termination measure and traffic potential -------------------------------------------
-   For the exchange towards parent u, with n = number of connected clients:
-     pcnt   = number of peers that do not have u yet + number of raised flags
+   With n = number of connected clients:
      pups   = messages travelling towards the host,  pdowns = messages travelling from the host
-   [pmeasure] strictly decreases with every effective announce / deliver event of such an exchange;
-   [ppotential] + messages sent so far never increases. *)
+     a raised flag weighs 1, an armed peer 2n+1 (its announcement is worth 2n, see below),
+     a message towards the host 2n (it becomes n-1 messages from the host and may raise a flag),
+     a message from the host 2 (it may raise a flag).
+   [pmeasure] strictly decreases with EVERY effective announce / deliver event, from any state;
+   [ppotential M] + messages sent so far never increases along announce / deliver events as long as
+   at most M clients are connected. *)
 Definition sumf (f : peer -> nat) (l : list peer) : nat := foldr (fun c acc => f c + acc) 0 l.
-Definition pcnt1 (u : puid) (s : pstate) (p : peer) : nat :=
-  (if bool_decide (ppar s p = Some u) then 0 else 1) + (if pchg s p then 1 else 0).
-Definition pcnt (u : puid) (s : pstate) : nat := pcnt1 u s host + sumf (pcnt1 u s) (pconn s).
+Definition wsum (f : ppeer -> nat) (s : pstate) : nat :=
+  f (pget s host) + sumf (fun c => f (pget s c)) (pconn s).
+Definition rarmed (x : ppeer) : bool := changed x && negb (bool_decide (par x = tok x)).
+Definition pw1 (n : nat) (x : ppeer) : nat :=
+  if changed x then (if bool_decide (par x = tok x) then 1 else 2 * n + 1) else 0.
+Definition parm1 (x : ppeer) : nat := if rarmed x then 1 else 0.
 Definition pups (s : pstate) : nat := sumf (fun c => length (plink s c host)) (pconn s).
 Definition pdowns (s : pstate) : nat := sumf (fun c => length (plink s host c)) (pconn s).
-Definition pmeasure (u : puid) (s : pstate) : nat :=
-  let n := length (pconn s) in (n + 1) * pcnt u s + n * pups s + pdowns s.
-Definition ppotential (u : puid) (s : pstate) : nat :=
-  let n := length (pconn s) in n * pcnt u s + (n - 1) * pups s.
+Definition pmeasure (s : pstate) : nat :=
+  let n := length (pconn s) in wsum (pw1 n) s + 2 * n * pups s + 2 * pdowns s.
+Definition ppotential (M : nat) (s : pstate) : nat := M * wsum parm1 s + (M - 1) * pups s.
 
 (* ---------- examples (non-vacuity of the model) ----------------------------------------------- *)
 
 Definition pview (s : pstate) (ps : list peer) : list (option puid) * bool := (ppar s <$> ps, pquiescentb s).
 
-(* 3 peers: client 1 sets the parent; the host and client 2 follow; client 2 echoes the link to the
-   host, which relays the echo to client 1; the host's own announcement reaches both clients; all
-   echoes find the parent already in place and die.  6 = 2*(2+1) messages. *)
+(* 3 peers: client 1 sets the parent and announces it; the host applies it and relays it to client 2;
+   the flags raised by the applications are seen by the announcing systems, which stay silent
+   (the token is the current parent).  2 = n messages. *)
 Definition ex_single : list pevent :=
-  [PSet 1 7; PAnnounce 1; PDeliver 1 0; PAnnounce 0; PDeliver 0 2; PDeliver 0 2; PAnnounce 2;
-   PDeliver 0 1; PDeliver 2 0; PDeliver 0 1]%N.
+  [PSet 1 7; PAnnounce 1; PDeliver 1 0; PAnnounce 0; PDeliver 0 2; PAnnounce 2]%N.
 Example ex_single_runs :
   (fun s => pview s [0; 1; 2]%N) <$> prun (pinit 2) ex_single = Some ([Some 7; Some 7; Some 7]%N, true).
 Proof. vm_compute. reflexivity. Qed.
-Example ex_single_sent : ptotal_sent (pinit 2) ex_single = 6.
+Example ex_single_sent : ptotal_sent (pinit 2) ex_single = 2.
 Proof. vm_compute. reflexivity. Qed.
 Example ex_single_not_quiescent_before :
   forallb (fun s => negb (pquiescentb s)) (tail (removelast (pstates (pinit 2) ex_single))) = true.
 Proof. vm_compute. reflexivity. Qed.
 
-(* the host sets the parent *)
-Example ex_host_sets :
-  (fun s => (pview s [0; 1; 2]%N, ptotal_sent (pinit 2) [PSet 0 7; PAnnounce 0; PDeliver 0 1; PDeliver 0 2;
-     PAnnounce 1; PAnnounce 2; PDeliver 1 0; PDeliver 2 0; PDeliver 0 1; PDeliver 0 2]%N)) <$>
-  prun (pinit 2) [PSet 0 7; PAnnounce 0; PDeliver 0 1; PDeliver 0 2;
-     PAnnounce 1; PAnnounce 2; PDeliver 1 0; PDeliver 2 0; PDeliver 0 1; PDeliver 0 2]%N
-  = Some (([Some 7; Some 7; Some 7]%N, true), 6).
+(* the host sets the parent: n messages *)
+Definition ex_host_sets : list pevent :=
+  [PSet 0 7; PAnnounce 0; PDeliver 0 1; PDeliver 0 2; PAnnounce 1; PAnnounce 2]%N.
+Example ex_host_sets_runs :
+  (fun s => (pview s [0; 1; 2]%N, ptotal_sent (pinit 2) ex_host_sets)) <$> prun (pinit 2) ex_host_sets
+  = Some (([Some 7; Some 7; Some 7]%N, true), 2).
 Proof. vm_compute. reflexivity. Qed.
 
 (* two re-parentings separated by quiescence, then a join at a quiescent state *)
 Example ex_sequential_join :
   (fun s => pview s [0; 1; 2; 3]%N) <$>
   prun (pinit 2) (ex_single ++
-    [PSet 2 9; PAnnounce 2; PDeliver 2 0; PDeliver 0 1; PAnnounce 0; PAnnounce 1; PDeliver 1 0;
-     PDeliver 0 1; PDeliver 0 2; PDeliver 0 2;
-     PJoin 3; PDeliver 0 3; PAnnounce 3; PDeliver 3 0; PDeliver 0 1; PDeliver 0 2])%N
+    [PSet 2 9; PAnnounce 2; PDeliver 2 0; PDeliver 0 1; PAnnounce 0; PAnnounce 1;
+     PJoin 3; PDeliver 0 3; PAnnounce 3])%N
   = Some ([Some 9; Some 9; Some 9; Some 9]%N, true).
 Proof. vm_compute. reflexivity. Qed.
